@@ -20,7 +20,8 @@ RULE = ('solved 2021-2023 returns from the answer-on-demand generator (non-negat
         'Oracle: balance equations (1040: 34-37 = 33-24, not both positive, 35a+36 = 34; NC: 28/26a vs 25-19, 34 = 28-33, 27 = 26a+26d+26e) '
         'and >= 0 for every floored/named line. Non-trivial = a solved return where at least one zero floor is active (the unfloored '
         'expression is negative) or the return owes; distinct = (year, forms, set of active floors, owes)'
-        ' Also: the same return with its withholding moved so that the federal / N.C. balance is 0, +-1 cent ... +-250 dollars; third economic impact payments larger than the credit; refunds of overpaid mortgage interest larger than the interest.')
+        ' Also: the same return with its withholding moved so that the federal / N.C. balance is 0, +-1 cent ... +-250 dollars; third economic impact payments larger than the credit; refunds of overpaid mortgage interest larger than the interest.'
+        ' Further personas: dependents with credits over tax, investor with section 199A dividends, an IRA below its basis, N.C. refund with use tax, use-tax credit.')
 ASSUMPTIONS = ['inputs are non-negative amounts (the generator draws no negative amounts)',
                'lines that legitimately follow a negative AGI or hold a loss are excluded by name (see data/nonneg_lines.json)']
 
